@@ -2264,6 +2264,18 @@ class FnShaped(translate.Fn):
                 for j in range(i - 1, -1, -1):
                     b = blk[j]
                     if isinstance(b, ast.Assign) and len(b.targets) == 1 and ast.unparse(b.targets[0]) == attr:
+                        la = ast.unparse(b.value) if isinstance(b.value, ast.Attribute) else None
+                        if la is not None and la in self.local_attrs:
+                            # a LOCAL ATTRIBUTE (`self.x = e` earlier in this function: a variable of the translation) is
+                            # published: same rule, the attribute must not be stored again before the yield
+                            for mid in blk[j + 1:i]:
+                                for n in ast.walk(mid):
+                                    if isinstance(n, ast.Attribute) and ast.unparse(n) in (attr, la) \
+                                            and isinstance(n.ctx, ast.Store):
+                                        self.fail(mid, 'the published attribute / its local attribute is stored again before the yield')
+                                    if isinstance(n, (ast.Yield, ast.YieldFrom)):
+                                        self.fail(mid, 'a yield between the store of the published attribute and the yield')
+                            return ast.copy_location(ast.Attribute(value=b.value.value, attr=b.value.attr, ctx=ast.Load()), ys)
                         if not isinstance(b.value, ast.Name):
                             self.fail(b, 'the published attribute is not assigned a plain variable')
                         x = b.value.id
@@ -2292,6 +2304,11 @@ class FnShaped(translate.Fn):
             if inline or any(not (isinstance(r, ast.Expr) and isinstance(r.value, ast.Constant)) for r in rest):
                 self.fail(s, 'the single yield must be the last statement of the function body')
             rk = self.spec.get('returns', 's')
+            if self.spec.get('publish'):
+                # what the declared ATTRIBUTE holds while the generator is suspended at its single yield
+                pv = self.published_var(s)
+                pv = pv if isinstance(pv, ast.AST) else ast.copy_location(ast.Name(id=pv, ctx=ast.Load()), s)
+                return ind + self.value_of_kind(pv, rk, env) + '\n', True
             return ind + self.value_of_kind(y.elts[1], rk, env) + '\n', True
         if mode == 'list':
             if env.get('yield__') != 'arr2list':
@@ -2299,8 +2316,9 @@ class FnShaped(translate.Fn):
             if self.spec.get('publish'):
                 # the list of what the declared ATTRIBUTE holds at every yield (what the consumer of the suspended generator
                 # reads from the object) instead of the yielded values
-                return self.list_append('yield__', ast.copy_location(ast.Name(id=self.published_var(s), ctx=ast.Load()), s),
-                                        env, ind, s), False
+                pv = self.published_var(s)
+                pv = pv if isinstance(pv, ast.AST) else ast.copy_location(ast.Name(id=pv, ctx=ast.Load()), s)
+                return self.list_append('yield__', pv, env, ind, s), False
             return self.list_append('yield__', y.elts[1], env, ind, s), False
         self.fail(s, 'yield in a function that is not declared as a generator')
 
